@@ -1,0 +1,10 @@
+//go:build !verif
+
+package tor
+
+import "github.com/jech/storrent/hash"
+
+// Observation / scheduling points of the verification harness (build tag
+// verif).  Without the tag they are no-ops.
+func verifDhtAnnounce(h hash.Hash, ipv6 bool, port uint16) {}
+func verifExpireYield()                                    {}
